@@ -515,6 +515,9 @@ func c10PsecChild(c *ev.Ctx, out *json.Encoder) {
 	f2 := enc("lossless/pillarbox-330x310-q90", img.Gen(r, "pillarbox", "gradient", 330, 310), mkopt(func(o *webp.EncoderOptions) { o.Lossless = true; o.Quality = 90; o.Method = 3 }))
 	f3 := enc("lossless/photo-350x300-q92", img.Gen(r, "photo", "noise", 350, 300), mkopt(func(o *webp.EncoderOptions) { o.Lossless = true; o.Quality = 92; o.Method = 2; o.Exact = true }))
 	enc("lossless/flatpatch-512x200-q99", img.Gen(r, "flatpatch", "opaque", 512, 200), mkopt(func(o *webp.EncoderOptions) { o.Lossless = true; o.Quality = 99; o.Method = 4 }))
+	// two pictures of one size whose empty entropy tiles lie elsewhere: pooled scratch changes hands between them
+	enc("lossless/stripflat-512x256-a", img.Gen(r, "stripflat", "opaque", 512, 256), mkopt(func(o *webp.EncoderOptions) { o.Lossless = true; o.Quality = 95; o.Method = 4 }))
+	enc("lossless/stripflat-512x256-b", img.Gen(r, "stripflat", "opaque", 512, 256), mkopt(func(o *webp.EncoderOptions) { o.Lossless = true; o.Quality = 95; o.Method = 4 }))
 	enc("lossless/tiles-420x250-q75", img.Gen(r, "tiles", "binary", 420, 250), mkopt(func(o *webp.EncoderOptions) { o.Lossless = true }))
 	f4 := enc("lossy/photo-640x480", img.Gen(r, "photo", "opaque", 640, 480), mkopt(func(o *webp.EncoderOptions) { o.Method = 4 }))
 	f5 := enc("lossy+alpha/tiles-500x300", img.Gen(r, "tiles", "gradient", 500, 300), mkopt(func(o *webp.EncoderOptions) { o.Method = 3; o.Partitions = 2 }))
@@ -529,7 +532,7 @@ func c10PsecChild(c *ev.Ctx, out *json.Encoder) {
 		solo[i] = o.run()
 	}
 	total := 0
-	counts := []int64{2, 3, 5, 16}
+	counts := []int64{3, 16}
 	if c.Thorough() {
 		counts = []int64{2, 3, 4, 5, 7, 11, 16, 33, 0}
 	}
@@ -599,6 +602,8 @@ func runC10(c *ev.Ctx) {
 		"(c) multi-worker lossy encodes under seeded schedule perturbation at the hooked sync points (yield / sleep in the lost-wake-up windows / starved worker) must equal the single-worker " +
 		"bytes; (d) offline checker over the recorded event trace: rows claimed once, macroblocks in order by the claiming goroutine, MB(x,y) only after MB(min(x+1,mbW-1),y-1), signals " +
 		"1..mbW in order, phase B row y only after row y is complete, waits balanced; (e) deadlock = Go's all-goroutines-asleep fatal or a watchdog QUIT dump parked in rowSync.waitFor; " +
+		"(f) the coders' own parallel sections (hash chain, predictor tiles, histogram cost/remap, inverse transforms, ARGB conversion, lossy import/analysis/row pipeline) driven above their size " +
+		"thresholds with forced worker counts and 3 calls in flight on different pictures, std and -race builds: result == one-worker solo result, sections actually entered are counted by the worker hook; " +
 		"distinct = distinct interleaving signatures (hash of claim/wait/broadcast order)"
 	exe := os.Getenv("VERIF_EXE")
 	raceExe := os.Getenv("VERIF_EXE_RACE")
@@ -715,15 +720,22 @@ func runC10(c *ev.Ctx) {
 		dir, _ := os.MkdirTemp("", "verif-c10-race-")
 		defer os.RemoveAll(dir)
 		logp := filepath.Join(dir, "race.log")
+		// the parallel-sections child runs next to the stress and perturbation children (8 + 8 cores)
+		var rwg sync.WaitGroup
+		rwg.Add(1)
+		go func() {
+			defer rwg.Done()
+			msgs, se, err := run(raceExe, []string{"GORACE=halt_on_error=0 log_path=" + logp, "GOMAXPROCS=8"}, time.Duration(c.N(900, 7200))*time.Second, "psec")
+			handle("race-psec", msgs, se, err)
+		}()
 		msgs, se, err := run(raceExe, []string{"GORACE=halt_on_error=0 log_path=" + logp}, time.Duration(c.N(300, 3600))*time.Second, "stress", strconv.Itoa(c.N(3, 40)))
 		handle("race-stress", msgs, se, err)
-		msgs, se, err = run(raceExe, []string{"GORACE=halt_on_error=0 log_path=" + logp}, time.Duration(c.N(600, 3600))*time.Second, "psec")
-		handle("race-psec", msgs, se, err)
 		nsRace := 2
 		for s := 0; s < nsRace; s++ {
 			msgs, se, err = run(raceExe, []string{"GORACE=halt_on_error=0 log_path=" + logp, "GOMAXPROCS=8"}, time.Duration(c.N(300, 3600))*time.Second, "perturb", strconv.Itoa(s), strconv.Itoa(nsh*c.N(4, 2)))
 			handle("race-perturb", msgs, se, err)
 		}
+		rwg.Wait()
 		logs, _ := filepath.Glob(logp + ".*")
 		reports := 0
 		seen := map[string]bool{}
